@@ -178,7 +178,7 @@ NAMES = ("a", "b", "c")
 
 def fitter_engine(root):
     eng = engine(root, FILES, {"NexusFitter": {"_nx": REF("Nexus"), "_minimizer": PYOBJ, "_fit_par_names": PYOBJ, "__state_is_from_minimizer": BOOL},
-                               "FitBase": {"_fitter": PYOBJ, "_fit_param_constraints": PYOBJ, "_fit_param_names_bad_default": PYOBJ, "_param_model": REF("ParametricModelBaseMixin")}}, [])
+                               "FitBase": {"_fitter": PYOBJ, "_nexus": REF("Nexus"), "_fit_param_constraints": PYOBJ, "_fit_param_names_bad_default": PYOBJ, "_param_model": REF("ParametricModelBaseMixin")}}, [])
     mk(eng, "Nexus", "get", result=lambda vw: VNode(vw.args["node_name"].s, vw.self.e))
     mk(eng, "NexusFitter", "parameters_to_fit", "getter", result=lambda vw: VTuple([VStr(x) for x in NAMES]))
     return eng
